@@ -391,12 +391,37 @@ theorem row_spec (rows : List (List α)) (i : Int) :
     · have : False ∨ i ≥ rows.length := Or.inr (by omega)
       simp only [h0, if_false, this, if_true]
 
+/-- **Every collect limit.**  Whatever limit is given — `None`, negative, `0`, at, one past or far beyond
+the row count (`2**31`, `2**63`, …) — the value `DataFrame.collect` hands to `collect_cython` lies in
+the range of the C type its `limit` parameter is declared with (compiled.pyx signature; the generated
+`collectLimitMin/Max`), for every frame whose row count that type can express: the Python-level clamp
+(`if limit >= len(self._rows): limit = -1`, the generated `collectClampTest`) replaces everything at or
+beyond the row count by `-1`.  So the conversion never raises `OverflowError`. -/
+theorem collect_limit_fits (n : Nat) (limit : Option Int) (hn : (n : Int) ≤ Gen.Frame.collectLimitMax + 1) :
+    limitFits (passedLimit n limit) = true := by
+  have hmin : Gen.Frame.collectLimitMin ≤ -1 := by decide
+  have hmax : (-1 : Int) ≤ Gen.Frame.collectLimitMax := by decide
+  unfold limitFits
+  rw [passedLimit_eq]
+  simp only [decide_eq_true_eq]
+  generalize Gen.Frame.collectLimitMin = lo at *
+  generalize Gen.Frame.collectLimitMax = hi at *
+  cases limit with
+  | none => exact ⟨hmin, hmax⟩
+  | some l =>
+    simp only
+    by_cases h : l < 0 ∨ l ≥ n
+    · simp only [h, if_true]; exact ⟨hmin, hmax⟩
+    · simp only [h, if_false]
+      omega
+
 /-- `collect` / indexing on a frame, with the glue of `DataFrame.collect` and `collect_cython` around
 the transpose: names are resolved to their first position (`ValueError` for a name that is not a
 column); an empty frame or an empty column list gives one empty list per column; a position outside
 the row width is an `IndexError`; otherwise the result is the column-major transpose of the first
 `limitRows` rows. -/
-theorem collectOp_spec [Inhabited α] (sch : Schema) (rows : List (List α)) (cols : List ColRef) (limit : Option Int) :
+theorem collectOp_spec [Inhabited α] (sch : Schema) (rows : List (List α)) (cols : List ColRef) (limit : Option Int)
+    (hn : (rows.length : Int) ≤ Gen.Frame.collectLimitMax + 1) :
     (∀ cs, resolveCols sch.names cols = .ok cs → (rows = [] ∨ cs = []) →
         collectOp sch rows cols limit = .val (.table (cs.map fun _ => [])))
     ∧ (∀ cs, resolveCols sch.names cols = .ok cs → rows ≠ [] → cs ≠ [] →
@@ -412,10 +437,11 @@ theorem collectOp_spec [Inhabited α] (sch : Schema) (rows : List (List α)) (co
       rcases hemp with h | h
       · left; simp [h]
       · right; simp [h]
-    simp only [this, if_true]
+    simp only [this, if_true, collect_limit_fits _ limit hn, Bool.not_true, Bool.false_eq_true, if_false]
   · intro cs hres hr hc hrect hin
     unfold collectOp
     rw [hres]
+    simp only [collect_limit_fits _ limit hn, Bool.not_true, Bool.false_eq_true, if_false]
     have h1 : ¬ (rows.isEmpty = true ∨ cs.isEmpty = true) := by
       intro h; rcases h with h | h
       · exact hr (List.isEmpty_iff.mp h)
@@ -455,49 +481,77 @@ variable [DecidableEq α]
 
 theorem step_refines (st : List (IReg α)) (sp : List (SReg α)) (op : Op α) (hs : Sim st sp) (hw : wfOp st op) :
     ∃ st' sp', implStep st op = some st' ∧ specStep sp op = some sp' ∧ Sim st' sp' := by
+  have rel_deferOf : ∀ (src : Nat) (x : SReg α), Rel (deferOf src x) x := by
+    intro src x; cases x <;> simp only [deferOf] <;> constructor
   cases op with
   | un u s =>
-    obtain ⟨sch, l, rows, h⟩ := hw
-    have h' := hs.frame_of h
-    simp only [implStep, specStep, h, h']
-    cases l with
-    | false => exact ⟨_, _, rfl, rfl, hs.push (rel_ofSpec _ _)⟩
-    | true =>
+    obtain ⟨sch, rows, hf⟩ := hw
+    have h' := hs.frameOf_of hf
+    have hit : Gen.Frame.materialisesFirst u.method ≠ true → u.iterates = true := by
+      intro hm
+      cases hit : u.iterates with
+      | false => exact absurd (method_materialises methods_materialise_first u hit) hm
+      | true => rfl
+    rcases frameOf_cases hf with ⟨l, h⟩ | ⟨src, h⟩
+    · simp only [implStep, specStep, h, h']
+      cases l with
+      | false => exact ⟨_, _, rfl, rfl, hs.push (rel_ofSpec _ _)⟩
+      | true =>
+        by_cases hm : Gen.Frame.materialisesFirst u.method = true
+        · simp only [hm, if_true, Bool.not_true, Bool.false_eq_true, if_false]
+          exact ⟨_, _, rfl, rfl, (hs.materialise s).push (rel_ofSpec _ _)⟩
+        · by_cases hr : u.readsLate = true
+          · simp only [hm, hr, if_true, Bool.not_true, Bool.false_eq_true, if_false]
+            exact ⟨_, _, rfl, rfl, hs.push (rel_deferOf _ _)⟩
+          · simp only [hm, hr, hit hm, if_true, Bool.not_true, Bool.false_eq_true, if_false]
+            exact ⟨_, _, rfl, rfl, (hs.handOver s).push (rel_ofSpec _ _)⟩
+    · simp only [implStep, specStep, h, h']
       by_cases hm : Gen.Frame.materialisesFirst u.method = true
-      · simp only [hm, if_true, Bool.not_true, Bool.false_eq_true, if_false]
+      · simp only [hm, if_true]
         exact ⟨_, _, rfl, rfl, (hs.materialise s).push (rel_ofSpec _ _)⟩
-      · have hi : u.iterates = true := by
-          cases hit : u.iterates with
-          | false => exact absurd (method_materialises methods_materialise_first u hit) hm
-          | true => rfl
-        simp only [hm, hi, if_true, Bool.not_true, Bool.false_eq_true, if_false]
-        refine ⟨_, _, rfl, rfl, (hs.setL s .spent ?_).push (rel_ofSpec _ _)⟩
-        intro b hb
-        rw [h'] at hb; cases hb; constructor
+      · by_cases hr : u.readsLate = true
+        · simp only [hm, hr, if_true, Bool.false_eq_true, if_false]
+          exact ⟨_, _, rfl, rfl, hs.push (rel_deferOf _ _)⟩
+        · by_cases hl : u.lazyResult = true
+          · simp only [hm, hr, hl, if_true, Bool.false_eq_true, if_false]
+            exact ⟨_, _, rfl, rfl, (hs.handOver s).push (rel_deferOf _ _)⟩
+          · simp only [hm, hr, hl, hit hm, if_true, Bool.false_eq_true, if_false]
+            exact ⟨_, _, rfl, rfl, (hs.drain s).push (rel_ofSpec _ _)⟩
   | add s t =>
-    obtain ⟨⟨sa, la, ra, ha⟩, ⟨sb, lb, rb, hb⟩⟩ := hw
-    have ha' := hs.frame_of ha
-    have hb' := hs.frame_of hb
-    simp only [implStep, specStep, ha, hb, ha', hb', addOp]
+    obtain ⟨⟨sa, ra, ha⟩, ⟨sb, rb, hb1⟩⟩ := hw
+    have ha' := hs.frameOf_of ha
+    -- `t` is still live after `s` was materialised, so it was live before and stands for the same frame
+    have hs1 := hs.materialise s
+    have hb1' := hs1.frameOf_of hb1
+    have hb : frameOf st t = some (sb, rb) := by
+      have hlt : t < st.length := by
+        rcases frameOf_cases hb1 with ⟨l, h1⟩ | ⟨src, h1⟩ <;> (have := lt_of_get h1; simpa using this)
+      have hx : st[t]? = some st[t] := List.getElem?_eq_getElem hlt
+      obtain ⟨b, hbb, hrel⟩ := hs.get hx
+      rw [hb1'] at hbb; cases hbb
+      unfold frameOf; rw [hx]
+      generalize st[t] = a at hrel hx
+      cases hrel with
+      | frame sch l rows => rfl
+      | defer src sch rows => rfl
+      | spent sch rows =>
+        -- a spent register stays spent
+        exfalso
+        have := materialise_other st s t _ hx rfl
+        unfold frameOf at hb1; rw [this] at hb1; cases hb1
+    simp only [implStep, specStep, ha, hb, ha', hb1', addOp]
     by_cases he : sa = sb
     · subst he
       have m1 : Gen.Frame.materialisesFirst "__add__" = true := methods_materialise_first.2.2.2.2.2.2.2.1
       have m2 : Gen.Frame.materialisesFirst "__add__.other" = true := methods_materialise_first.2.2.2.2.2.2.2.2
       simp only [ne_eq, not_true_eq_false, if_false, m1, m2, if_true]
-      obtain ⟨l1, g1, _, _⟩ := materialise_get st s s sa la ra ha
-      obtain ⟨l1', g1', f1, _⟩ := materialise_get st s s sa la ra ha
-      have e1 := f1 rfl
-      subst e1
-      obtain ⟨l2, g2, _, k2⟩ := materialise_get (materialise st s) t s sa false ra g1'
-      have e2 := k2 rfl
-      subst e2
-      obtain ⟨l3, g3, _, _⟩ := materialise_get st s t sa lb rb hb
-      obtain ⟨l4, g4, f4, _⟩ := materialise_get (materialise st s) t t sa l3 rb g3
-      have e4 := f4 rfl
-      subst e4
+      have g1 : (materialise st s)[s]? = some (.frame sa false ra) := materialise_self st s sa ra ha
+      have g4 : (materialise (materialise st s) t)[t]? = some (.frame sa false rb) := materialise_self _ t sa rb hb1
+      have g2 : (materialise (materialise st s) t)[s]? = some (.frame sa false ra) := materialise_other _ t s _ g1 rfl
       have z1 : isLazy (materialise (materialise st s) t) s = false := isLazy_false_of _ _ _ _ g2
       have z2 : isLazy (materialise (materialise st s) t) t = false := isLazy_false_of _ _ _ _ g4
-      simp only [z1, z2, Bool.or_self, Bool.false_eq_true, if_false]
+      simp only [z1, z2, Bool.or_self, Bool.false_eq_true, if_false,
+        rowsNow_eager _ _ _ _ _ g2, rowsNow_eager _ _ _ _ _ g4]
       exact ⟨_, _, rfl, rfl, ((hs.materialise s).materialise t).push (Rel.frame _ _ _)⟩
     · simp only [ne_eq, he, not_false_eq_true, if_true, if_false]
       exact ⟨_, _, rfl, rfl, hs.push (Rel.err _)⟩
@@ -507,23 +561,108 @@ theorem step_refines (st : List (IReg α)) (sp : List (SReg α)) (op : Op α) (h
     simp only [implStep, specStep, h, h', hk, if_false, Bool.false_eq_true]
     exact ⟨_, _, rfl, rfl, (hs.set2 s (Rel.frame _ _ _)).push (Rel.val _)⟩
   | iter s =>
-    obtain ⟨sch, l, rows, h⟩ := hw
-    have h' := hs.frame_of h
+    obtain ⟨sch, rows, hf⟩ := hw
+    have h' := hs.frameOf_of hf
     have m1 : Gen.Frame.materialisesFirst "__iter__" = true := methods_materialise_first.2.2.2.2.2.2.1
-    simp only [implStep, specStep, h, h', m1, if_true]
-    exact ⟨_, _, rfl, rfl, (hs.materialise s).push (Rel.iter _ _)⟩
+    rcases frameOf_cases hf with ⟨l, h⟩ | ⟨src, h⟩
+    · simp only [implStep, specStep, h, h', m1, if_true]
+      exact ⟨_, _, rfl, rfl, (hs.materialise s).push (Rel.iter _ _)⟩
+    · simp only [implStep, specStep, h, h', m1, if_true]
+      exact ⟨_, _, rfl, rfl, (hs.materialise s).push (Rel.iter _ _)⟩
   | next it k =>
     obtain ⟨rows, pos, h⟩ := hw
     have h' := hs.iter_of h
     simp only [implStep, specStep, h, h']
     exact ⟨_, _, rfl, rfl, (hs.set2 it (Rel.iter _ _)).push (Rel.val _)⟩
   | zip s t =>
-    obtain ⟨⟨sa, la, ra, ha⟩, ⟨sb, lb, rb, hb⟩⟩ := hw
-    have ha' := hs.frame_of ha
-    have hb' := hs.frame_of hb
+    obtain ⟨⟨sa, ra, ha⟩, ⟨sb, rb, hb1⟩⟩ := hw
+    have ha' := hs.frameOf_of ha
+    have hs1 := hs.materialise s
+    have hb1' := hs1.frameOf_of hb1
+    have hb : frameOf st t = some (sb, rb) := by
+      have hlt : t < st.length := by
+        rcases frameOf_cases hb1 with ⟨l, h1⟩ | ⟨src, h1⟩ <;> (have := lt_of_get h1; simpa using this)
+      have hx : st[t]? = some st[t] := List.getElem?_eq_getElem hlt
+      obtain ⟨b, hbb, hrel⟩ := hs.get hx
+      rw [hb1'] at hbb; cases hbb
+      unfold frameOf; rw [hx]
+      generalize st[t] = a at hrel hx
+      cases hrel with
+      | frame sch l rows => rfl
+      | defer src sch rows => rfl
+      | spent sch rows =>
+        exfalso
+        have := materialise_other st s t _ hx rfl
+        unfold frameOf at hb1; rw [this] at hb1; cases hb1
     have m1 : Gen.Frame.materialisesFirst "__iter__" = true := methods_materialise_first.2.2.2.2.2.2.1
-    simp only [implStep, specStep, ha, hb, ha', hb', m1, if_true]
+    simp only [implStep, specStep, ha, hb, ha', hb1', m1, if_true]
+    have g1 : (materialise st s)[s]? = some (.frame sa false ra) := materialise_self st s sa ra ha
+    have g4 : (materialise (materialise st s) t)[t]? = some (.frame sb false rb) := materialise_self _ t sb rb hb1
+    have g2 : (materialise (materialise st s) t)[s]? = some (.frame sa false ra) := materialise_other _ t s _ g1 rfl
+    simp only [rowsNow_eager _ _ _ _ _ g2, rowsNow_eager _ _ _ _ _ g4]
     exact ⟨_, _, rfl, rfl, ((hs.materialise s).materialise t).push (Rel.val _)⟩
+
+/-- **Siblings of a lazily backed frame (1).**  `select` does not touch the rows of its source: the
+projection generator looks `self._rows` up when the selection is first read (the generated
+`selectReadsLate`), so after `a = s.select(…)` every register — the source included — is what it was,
+and the source can still be windowed, counted, collected, batched, added or iterated. -/
+theorem select_keeps_source (st : List (IReg α)) (attrs : List String) (s : Nat) (hw : live st s) :
+    ∃ r, implStep st (.un (.select attrs) s) = some (st ++ [r]) := by
+  obtain ⟨sch, rows, hf⟩ := hw
+  have hm : Gen.Frame.materialisesFirst (UnOp.select (α := α) attrs).method = false := by
+    simp only [UnOp.method]; decide
+  have hr : (UnOp.select (α := α) attrs).readsLate = true := by
+    simp only [UnOp.readsLate]; decide
+  rcases frameOf_cases hf with ⟨l, h⟩ | ⟨src, h⟩
+  · cases l with
+    | false => exact ⟨_, by simp only [implStep, h, Bool.not_false, if_true]; rfl⟩
+    | true => exact ⟨_, by simp only [implStep, h, hm, hr, Bool.not_true, Bool.false_eq_true, if_false, if_true]; rfl⟩
+  · exact ⟨_, by simp only [implStep, h, hm, hr, Bool.false_eq_true, if_false, if_true]; rfl⟩
+
+/-- **Siblings of a lazily backed frame (2).**  Derive a selection from a lazily backed frame, then
+apply any operator that materialises the frame (`head`, `tail`, `slice`, `row`, `len`, `collect`,
+`to_batches`), then read the selection: the program is inside the scope of `eval_refines` — so the
+selection lists the projection of every row, the other result is the operator applied to the frame's
+rows, and the frame itself keeps them. -/
+theorem sibling_after_materialising_use (sch : Schema) (rows : List (List α)) (attrs : List String)
+    (u : UnOp α) (hu : u.iterates = false) (how : Nat) :
+    wfProg [.frame sch true rows] [.un (.select attrs) 0, .un u 0, .un (.len how) 1] := by
+  have hm : Gen.Frame.materialisesFirst (UnOp.select (α := α) attrs).method = false := by
+    simp only [UnOp.method]; decide
+  have hr : (UnOp.select (α := α) attrs).readsLate = true := by
+    simp only [UnOp.readsLate]; decide
+  have hmu := method_materialises methods_materialise_first u hu
+  refine ⟨⟨sch, rows, rfl⟩, ?_⟩
+  intro st1 h1
+  simp only [implStep, List.getElem?_cons_zero, hm, hr, Bool.not_true, Bool.false_eq_true, if_false, if_true,
+    Option.some.injEq] at h1
+  subst h1
+  refine ⟨⟨sch, rows, rfl⟩, ?_⟩
+  intro st2 h2
+  simp only [implStep, List.cons_append, List.nil_append, List.getElem?_cons_zero, hmu, Bool.not_true,
+    Bool.false_eq_true, if_false, if_true, Option.some.injEq] at h2
+  subst h2
+  refine ⟨?_, fun _ _ => trivial⟩
+  simp only [apply1, selectOp, deferOf, materialise, List.getElem?_cons_zero, List.set_cons_zero]
+  exact ⟨_, _, rfl⟩
+
+/-- **Siblings (3): the other order.**  Reading the selection *first* runs the frame's own generator
+inside the projection: the selection holds the projected rows, the lazily backed frame is spent (the
+statement protects materialised sources only; the harness does not read such a frame again). -/
+theorem selection_read_first_spends_lazy_source (sch : Schema) (rows : List (List α)) (attrs : List String) :
+    implEval [.frame sch true rows] [.un (.select attrs) 0, .un (.len 0) 1]
+      = some [.spent, .frame (Schema.ofNames (select sch.iter rows attrs).1) false (select sch.iter rows attrs).2,
+              .val (.nat (select sch.iter rows attrs).2.length)] := by
+  have hm : Gen.Frame.materialisesFirst (UnOp.select (α := α) attrs).method = false := by
+    simp only [UnOp.method]; decide
+  have hr : (UnOp.select (α := α) attrs).readsLate = true := by
+    simp only [UnOp.readsLate]; decide
+  have hl : Gen.Frame.materialisesFirst (UnOp.len (α := α) 0).method = true := by
+    simp only [UnOp.method]; decide
+  simp only [implEval, implStep, List.getElem?_cons_zero, hm, hr, hl, Bool.not_true, Bool.false_eq_true, if_false,
+    if_true, Option.bind_some, apply1, selectOp, deferOf, List.cons_append, List.nil_append,
+    List.getElem?_cons_succ, ofSpec]
+  simp [materialise, upChain, closure, downAux, spendSet, spendable, List.mapIdx_cons]
 
 /-- **Any composition.**  For every well-formed program (any length, any operators, any arguments,
 eager or lazily backed base frame) the state machine of the implementation and the list
